@@ -1034,7 +1034,10 @@ Definition init_root (st : state) (r : root) : state * option err :=
   | RootLit l =>
       match l with
       | LitLeaf _ => (add_slot st dead_slot, Some EType)
-      | _ => let '(n, nx) := build false None [] l (next_id st) in (add_root (with_next st nx) n, None)
+      | _ =>
+          if lit_valid l && lit_no_obj l then
+            let '(n, nx) := build false None [] l (next_id st) in (add_root (with_next st nx) n, None)
+          else (add_slot st dead_slot, Some ENA)
       end
   | RootTyped k rf fl v =>
       match troot st k rf fl v with
